@@ -201,3 +201,53 @@ func lower(b byte) byte {
 	}
 	return b
 }
+
+// selfCheckScanner is run once per process by the units that rely on the scanner: every encoding of
+// a planted secret must be found at every alignment, and nothing is found in clean text.
+func selfCheckScanner() error {
+	secret := []byte("\x00\x01\xfe\xff0123456789abcdefghijklmnop\x80\x81\x82\x83\x84\x85")
+	other := []byte("ZYXWVUTSRQPONMLKJIHGFEDCBA9876543210")
+	sc := newScanner([][]byte{secret}, nil)
+	for pad := 0; pad < 4; pad++ {
+		stream := append(append(append([]byte{}, other[:7+pad]...), secret[3:29]...), other...)
+		plants := map[string][]byte{
+			"raw":        stream,
+			"hex":        []byte("x=" + hex.EncodeToString(stream)),
+			"HEX":        []byte("x=" + strings.ToUpper(hex.EncodeToString(stream))),
+			"base64std":  []byte(`{"v":"` + base64.StdEncoding.EncodeToString(stream) + `"}`),
+			"base64url":  []byte(base64.URLEncoding.EncodeToString(stream)),
+			"base64raw":  []byte(base64.RawStdEncoding.EncodeToString(stream)),
+			"text":       []byte(fmt.Sprintf("value: %q", stream)),
+			"octal-text": []byte(octalEscape(stream)),
+		}
+		for name, text := range plants {
+			if sc.find(text) == "" {
+				return fmt.Errorf("scanner self check: planted secret not found in %s form (padding %d)", name, pad)
+			}
+		}
+	}
+	clean := newScanner([][]byte{secret}, nil)
+	for _, text := range [][]byte{other, []byte(hex.EncodeToString(other)), []byte(base64.StdEncoding.EncodeToString(other))} {
+		if hit := clean.find(text); hit != "" {
+			return fmt.Errorf("scanner self check: false hit %s", hit)
+		}
+	}
+	// type URLs embedded in a serialized key are not secrets
+	withURL := append(append([]byte{0x0a, 0x31}, "type.googleapis.com/google.crypto.tink.XAesGcmKey"...), secret...)
+	sc = newScanner([][]byte{withURL}, nil)
+	if hit := sc.find([]byte("\x0a\x31type.googleapis.com/google.crypto.tink.XAesGcmKey\x10\x01")); hit != "" {
+		return fmt.Errorf("scanner self check: embedded type URL reported: %s", hit)
+	}
+	if sc.find(secret) == "" {
+		return fmt.Errorf("scanner self check: secret next to an embedded type URL not found")
+	}
+	return nil
+}
+
+func octalEscape(b []byte) string {
+	var sb strings.Builder
+	for _, c := range b {
+		fmt.Fprintf(&sb, "\\%03o", c)
+	}
+	return sb.String()
+}
